@@ -218,6 +218,17 @@ static InstResult run_prng(const std::vector<CrashInfo> &cr, bool th, int shard,
 	for(uint32_t s : seeds) E.eval("mt19937 seed=" + std::to_string(s), "mt19937", [&] {
 		frg::mt19937 a; a.seed(s); std::mt19937 b(s);
 		for(int i = 0; i < 1500; i++) { uint32_t x = a(), y = (uint32_t)b(); if(x != y) throw Violation{"C18", "mt19937:stream", "draw " + std::to_string(i) + " differs from std::mt19937 for seed " + std::to_string(s)}; }
+		// seed() on an engine that has been used (1500 draws: in the middle of a block of 624) restarts the stream of the new seed
+		uint32_t s2 = s * 2654435761u + 1; a.seed(s2); b.seed(s2);
+		for(int i = 0; i < 700; i++) { uint32_t x = a(), y = (uint32_t)b(); if(x != y) throw Violation{"C18", "mt19937:reseed", "draw " + std::to_string(i) + " after seed(" + std::to_string(s2) + ") on a used engine differs from std::mt19937"}; }
+	});
+	if(shard == 0) for(int k : {0, 1, 2, 623, 624, 625, 1247, 1248, 1249}) E.eval("mt19937 reseed after " + std::to_string(k) + " draws", "mt19937", [&] {
+		for(uint32_t s0 : {5489u, 0u, 0xffffffffu}) for(uint32_t s1 : {0u, 1u, 5489u, 0x80000000u}) {
+			frg::mt19937 a; if(s0 != 5489u) a.seed(s0);
+			for(int i = 0; i < k; i++) a();
+			a.seed(s1); std::mt19937 b(s1);
+			for(int i = 0; i < 1300; i++) if(a() != (uint32_t)b()) throw Violation{"C18", "mt19937:reseed", "draw " + std::to_string(i) + " after re-seeding an engine that had produced " + std::to_string(k) + " values differs from std::mt19937"};
+		}
 	});
 	if(shard == 0) E.eval("mt19937 default", "mt19937", [&] { frg::mt19937 a; std::mt19937 b; for(int i = 0; i < 2000; i++) if(a() != (uint32_t)b()) throw Violation{"C18", "mt19937:default", "default-seeded stream differs"}; });
 	std::vector<uint64_t> ps = {0, 1, 42, 54, 0xffffffffull, 0x100000000ull, ~0ull, ~0ull - 1, 0x8000000000000000ull, 0x123456789abcdefull};
